@@ -72,7 +72,10 @@ func (in *Interp) registerIntrinsics() {
 	}
 	r["(*sync.WaitGroup).Add"] = nop
 	r["(*sync.WaitGroup).Done"] = nop
-	r["(*sync.WaitGroup).Wait"] = nop
+	r["(*sync.WaitGroup).Wait"] = func(in *Interp, fr *frame, args []Value) Value {
+		in.runPendingGo(fr)
+		return nil
+	}
 
 	// --- sync/atomic (plain functions; typed wrappers run from source)
 	for _, ty := range []string{"Int32", "Int64", "Uint32", "Uint64", "Uintptr", "Pointer"} {
